@@ -4213,9 +4213,14 @@ static int
 strtoint(const char *const str)
 {
 	char *endptr;
-	const int r = strtol(str, &endptr, 10);
+	long r;
+	if (!EVUTIL_ISDIGIT_(*str) && !(*str == '-' && EVUTIL_ISDIGIT_(str[1])))
+		return -1; /* empty, or not a number */
+	r = strtol(str, &endptr, 10);
 	if (*endptr) return -1;
-	return r;
+	if (r > INT_MAX) r = INT_MAX; /* saturate: callers clip to their bounds */
+	if (r < INT_MIN) r = INT_MIN;
+	return (int)r;
 }
 
 /* Parse a number of seconds into a timeval; return -1 on error. */
